@@ -21,7 +21,7 @@ FALSE = Literal("false", value=False)
 NULL = Literal("null", value=None)
 SimpleValue = (Number | QuotedString | JsonObject | JsonArray | TRUE | FALSE | NULL)
 JsonValue = (WS >> SimpleValue << WS)
-Key = (QuotedString << Colon)
+Key = (QuotedString << WS << Colon)
 KVPairs = (((WS >> Key) + JsonValue).sep_by(Comma))
 JsonArray <= (LeftBracket >> JsonValue.sep_by(Comma) << RightBracket)
 JsonObject <= (LeftCurly >> KVPairs.map(lambda res: dict((k, v) for (k, v) in res)) << RightCurly)
